@@ -1,5 +1,5 @@
 From Coq Require Import List NArith ZArith Permutation.
-From SK Require Import lib.LGraph lib.StrJoin model.C08_Model proof.C08_Spec proof.C08_Faithful proof.C08_Nauty proof.C08_SigFun proof.C08_Sound proof.C08_Invariant proof.C08_Value.
+From SK Require Import lib.LGraph lib.StrJoin model.C08_Model proof.C08_Spec proof.C08_Faithful proof.C08_Nauty proof.C08_SigFun proof.C08_Sound proof.C08_Invariant proof.C08_Value proof.C08_GraphSig.
 Import ListNotations.
 
 (** 1. Faithfulness: the canonical graph is the input relabelled by a map that is injective on its nodes;
@@ -172,3 +172,19 @@ Theorem C08_nauty_idempotent : forall g : graph, wf g -> els_ok g ->
   serialise (canon_nauty (canon_nauty g)) = serialise (canon_nauty g).
 Proof. exact nauty_idempotent. Qed.
 Print Assumptions C08_nauty_idempotent.
+
+(** 8. NautyCanonicalizer.graph_signature (the digest of the label of the canonical graph read in the order 1..N;
+       model: [graph_sig_label]) is exact: equal exactly for graphs that are isomorphic on the covered attributes -
+       including ITS / reaction-centre graphs whose orders are (before, after) pairs, where a pair and its mirror image
+       are different values.  The label it hashes is the minimal label found by the search. *)
+Theorem C08_graph_signature_exact : forall (D : Type) (digest : str -> D) (g h : graph),
+  wf g -> wf h -> els_ok g -> els_ok h ->
+  (digest (graph_sig_label g) = digest (graph_sig_label h) -> graph_sig_label g = graph_sig_label h) ->
+  (digest (graph_sig_label g) = digest (graph_sig_label h) <-> iso_cov g h).
+Proof. exact graph_signature_spec. Qed.
+Print Assumptions C08_graph_signature_exact.
+
+Theorem C08_graph_signature_is_min_label : forall g : graph, wf g ->
+  graph_sig_label g = nlabel g (nauty_perm g) /\ nauty_label g = Some (nlabel g (nauty_perm g)).
+Proof. exact graph_sig_label_min_both. Qed.
+Print Assumptions C08_graph_signature_is_min_label.
